@@ -1646,4 +1646,14 @@ theorem policies_resolve (env : Env) (known : List Known) (c : Cluster) (hv : va
   · exact (hmem u).mpr (href.1 u hu)
   · exact hu
 
+theorem namesOK_mem_ne (l : List Schema) (h : namesOK l = true) (s : Schema) (hs : s ∈ l) : s.name ≠ [] := by
+  induction l with
+  | nil => cases hs
+  | cons a l ih =>
+    simp only [namesOK, Bool.and_eq_true, decide_eq_true_eq] at h
+    simp only [List.mem_cons] at hs
+    rcases hs with rfl | hs
+    · exact h.1.1
+    · exact ih h.2 hs
+
 end KG.Lemmas.Validate
